@@ -12,7 +12,11 @@ RULE = ("unlock: L1 histories (sifapp.Setup, real clp message servers, one cache
         "wrap of the model) and changed by the admin (UpdateRewardsParams) in 8% of the steps; per history a configuration is "
         "drawn: raw external:native ratio of each pool in {1:1, 100:1}, which pools are margin enabled (x/margin Params.Pools), clp "
         "EnableRemovalQueue on/off, RemovalQueueThreshold in {0, 0.1, 0.95, 1}, margin liabilities written into the margin pools "
-        "(none / external 10% / external 5% + native 2%); the clp BeginBlocker/EndBlocker run once per new height; the outcome of the "
+        "(none / external 10% / external 5% + native 2%); the clp BeginBlocker/EndBlocker run once per new height; on one new "
+        "height in six the pool creator funds the rewards buckets (MsgAddLiquidityToRewardsBucket) and the rewards epoch-end hook "
+        "(Keeper.AfterEpochEnd, identifier `hour`) runs, in re-investment mode in two of three histories (wallet mode otherwise; rewards lock "
+        "period 0..2): the units it adds to each record are an environment value for the model, the unlock lists must not move (model answer "
+        "+ chk c15.genuine against the judge's request ledger); the outcome of the "
         "margin-health stage of every removal (pass / queue / block / panic) is computed on the pre-state with the implementation's own "
         "functions and given to the model, which must reproduce ErrQueued / ErrRemovalsBlockedByHealth as refusals that change nothing; "
         "every third history starts with a directed list-length script "
@@ -62,8 +66,8 @@ UNPROVED = [
     "ordinary inputs is a mismatch, not a prediction.",
     "The margin-health outcome (pass/queue/block/panic) is an environment value computed by the harness with the implementation's own "
     "CalculateWithdrawal*, ExtractDebt, CalculatePoolHealth, GetRemovalQueueThreshold, IsPoolEnabled, IsRemovalQueueEnabled.",
-    "Epoch re-investment, LPPD and margin hooks are not run by this family (only the clp Begin/EndBlocker, which do not touch LP units); "
-    "their effect on provider units is covered only in so far as another family runs them (C01/C02 amm family).",
+    "LPPD and margin hooks are not run by this family (the clp Begin/EndBlocker and the rewards epoch-end hook are); no reward periods / "
+    "LPPD policies are configured here.",
     "No separate abstract-ledger state machine is defined: the refinement is stated per message (code decision with int64 wrap, "
     "aliasing and zero records = the spec's matured/expired/usable over mathematical integers) and per history (ledger invariants).",
 ]
